@@ -198,6 +198,17 @@ func (s *Solver) fresh(t *Term, sb *strings.Builder) {
 	s.allStrs = append(s.allStrs, t)
 }
 
+// SetTimeout changes the per-query time limit (ms) for the queries that follow.
+func (s *Solver) SetTimeout(ms int) {
+	if s.timeout == ms {
+		return
+	}
+	s.timeout = ms
+	if s.name != "cvc5" && !s.dead {
+		s.send(fmt.Sprintf("(set-option :timeout %d)\n", ms))
+	}
+}
+
 func (s *Solver) push() {
 	s.send("(push 1)\n")
 	s.marks = append(s.marks, len(s.journal))
